@@ -63,7 +63,8 @@ pub fn gen_cases(prop: &str, tier: &str, seed: u64, rep: &mut Report) -> Vec<Emi
         if thorough && rng.chance(1, 4) { opts.max_schemas = 12; opts.max_paths = 6; }
         let mut g = SpecGen::new(&mut rng, opts);
         let doc = g.spec();
-        let features = g.features.clone();
+        let mut features = g.features.clone();
+        if i % 5 == 3 { features.push("regenerated_with_marker".to_string()); }
         cases.push(EmitCase { label: format!("(generated seed={seed} index={i} cfg={})", quote(&format!("{:?}", cfg))), doc, cfg, features });
     }
     cases
@@ -79,7 +80,15 @@ pub fn run_real(c: &EmitCase) -> Result<Emitted, String> {
     let spec = parse_spec(&text, true)?;
     let h = real_extract(&spec)?;
     let d = fresh_dir("emit");
-    let r = generate(&spec, &c.cfg, &d);
+    let mut r = generate(&spec, &c.cfg, &d);
+    // regeneration over a hand-edited lib.rs (text above the documented marker is the user's): part of every
+    // crate's life, so a share of the cases is taken through it
+    if r.is_ok() && c.features.iter().any(|f| f == "regenerated_with_marker") {
+        if let Ok(old) = std::fs::read_to_string(d.join("src/lib.rs")) {
+            let _ = std::fs::write(d.join("src/lib.rs"), format!("//! hand-written crate documentation\n#![allow(unused)]\n// libninja: after\n{old}"));
+            r = generate(&spec, &c.cfg, &d);
+        }
+    }
     let tree = read_tree(&d);
     let _ = std::fs::remove_dir_all(&d);
     r?;
@@ -107,15 +116,15 @@ fn norm_docs(s: &Sexp) -> Sexp {
 fn erased_heads(prop: &str, kind: &str) -> Option<&'static [&'static str]> {
     Some(match (prop, kind) {
         ("C18", "models") => &["doc", "attrs", "super", "deref", "fields", "variants", "types"],
-        ("C18", "requests") => &["doc", "fields", "required", "setters", "output", "url", "verb", "program", "method"],
+        ("C18", "requests") => &["imports", "doc", "fields", "required", "setters", "output", "url", "verb", "program", "method"],
         ("C04", "models") => &["doc", "super", "deref", "derives"],
         ("C17", "models") => &["derives", "attrs", "super", "deref", "types"],
-        ("C17", "requests") => &["derives", "fields", "required", "setters", "output", "url", "verb", "program", "args", "literal"],
-        ("C03", "requests") => &["struct", "required", "setters", "output", "method"],
-        ("C05", "requests") => &["derives", "doc", "output", "url", "verb", "program"],
-        ("C06", "requests") => &["derives", "doc", "fields", "required", "setters", "output", "url", "verb", "program", "args", "literal"],
+        ("C17", "requests") => &["imports", "derives", "fields", "required", "setters", "output", "url", "verb", "program", "args", "literal"],
+        ("C03", "requests") => &["imports", "struct", "required", "setters", "output", "method"],
+        ("C05", "requests") => &["imports", "derives", "doc", "output", "url", "verb", "program"],
+        ("C06", "requests") => &["imports", "derives", "doc", "fields", "required", "setters", "output", "url", "verb", "program", "args", "literal"],
         ("C14", "lib") => &["base_url"],
-        ("C14", "requests") => &["struct", "required", "setters", "output", "url", "verb", "method"],
+        ("C14", "requests") => &["imports", "struct", "required", "setters", "output", "url", "verb", "method"],
         ("C15", "lib") => &["authenticate", "fromenv", "nofromenv"],
         ("C02", _) | ("C01", _) | ("C16", _) => &[],
         _ => return None,
@@ -196,6 +205,9 @@ pub fn run(prop: &str, tier: &str, seed: u64, out: &str) {
         oracle(prop, &mut rep, c, em);
     }
     let mods = model::eval(&reqs);
+    // cases on which model and implementation differ: the compile / run stages of the same property look at
+    // them first (the search for a concrete failing input when the correspondence breaks)
+    let mut focus: BTreeSet<String> = BTreeSet::new();
     for ((im, m), (ci, what)) in imps.iter().zip(mods.iter()).zip(which.iter()) {
         if erased_heads(prop, what).is_none() { continue; }
         let (Some(a), Some(b)) = (sexp::parse(im), sexp::parse(m)) else { rep.disagree(&case_text(&cases[*ci]), &im.chars().take(300).collect::<String>(), &m.chars().take(300).collect::<String>()); continue };
@@ -217,10 +229,12 @@ pub fn run(prop: &str, tier: &str, seed: u64, out: &str) {
         };
         let (va, vb) = (norm(&a), norm(&b));
         if va != vb {
+            focus.insert(cases[*ci].label.clone());
             let first = va.iter().zip(vb.iter()).find(|(x, y)| x != y).map(|(x, y)| (x.clone(), y.clone())).unwrap_or((format!("{} entries", va.len()), format!("{} entries", vb.len())));
             rep.disagree(&case_text(&cases[*ci]), &first.0.chars().take(1500).collect::<String>(), &first.1.chars().take(1500).collect::<String>());
         }
     }
+    let _ = std::fs::write(scratch_root().join(format!("focus-{prop}.json")), serde_json::to_string(&focus.iter().collect::<Vec<_>>()).unwrap());
     rep.evaluations = reqs.len() as u64;
     rep.distinct_nontrivial = nontrivial;
     rep.rule = format!("{} cases: bundled and corpus specs plus structured random documents in D, each with a service name from {} spellings and a derive list of length 0..4 over simple / nested / whitespace-padded / duplicate / un-tokenisable strings, examples on or off; the real generator's files are summarised with syn and compared with the Lean emitter model applied to the real HIR; the property's oracle is applied to the real summaries. Non-trivial = distinct (HIR, config) with at least one retained schema", cases.len(), SERVICE_NAMES.len());
@@ -365,12 +379,43 @@ fn oracle(prop: &str, rep: &mut Report, c: &EmitCase, em: &Emitted) {
                 }
             }
         }
+        "C02" => oracle_c02(rep, c, em),
         "C03" => oracle_c03(rep, c, em),
         "C05" => oracle_c05(rep, c, em),
         "C06" => oracle_c06(rep, c, em),
         "C14" => oracle_c14(rep, c, em),
         _ => {}
     }
+}
+
+/// every declared module has a file and every written source file is declared (clause (a) of the judgement)
+fn oracle_c02(rep: &mut Report, c: &EmitCase, em: &Emitted) {
+    let case = case_text(c);
+    let mods_of = |path: &str| -> Option<Vec<String>> {
+        let text = String::from_utf8_lossy(em.tree.get(path)?).to_string();
+        let f = syn::parse_file(&text).ok()?;
+        Some(f.items.iter().filter_map(|i| if let syn::Item::Mod(m) = i { if m.content.is_none() { Some(m.ident.to_string()) } else { None } } else { None }).collect())
+    };
+    for (dir, modfile) in [("src/", "src/lib.rs"), ("src/model/", "src/model/mod.rs"), ("src/request/", "src/request/mod.rs")] {
+        let Some(declared) = mods_of(modfile) else { rep.oracle_fail("moduleFileMissing", vec![], &case, modfile); continue };
+        let mut seen = BTreeSet::new();
+        for m in &declared {
+            let m0 = m.strip_prefix("r#").unwrap_or(m);
+            if !seen.insert(m0.to_string()) {
+                let trig = if dir == "src/request/" && { let mut n: Vec<String> = em.hir.operations.iter().map(|o| mir_rust::sanitize_filename(&o.file_name())).collect(); n.sort(); let k = n.len(); n.dedup(); n.len() != k } { vec!["synthNameCollision".to_string()] } else { vec![] };
+                rep.oracle_fail("moduleDeclaredTwice", trig, &case, &format!("{modfile}: mod {m}"));
+            }
+            if !em.tree.contains_key(&format!("{dir}{m0}.rs")) && !em.tree.contains_key(&format!("{dir}{m0}/mod.rs")) { rep.oracle_fail("moduleWithoutFile", vec![], &case, &format!("{modfile}: mod {m}")); }
+        }
+        for p in em.tree.keys() {
+            if let Some(rest) = p.strip_prefix(dir) {
+                let stem = rest.strip_suffix(".rs").unwrap_or(rest);
+                if stem.contains('/') || p == modfile || stem == "mod" || stem == "lib" { continue; }
+                if !declared.iter().any(|m| m.strip_prefix("r#").unwrap_or(m) == stem) { rep.oracle_fail("fileWithoutModule", vec![], &case, p); }
+            }
+        }
+    }
+    rep.bump("c02_module_trees_checked");
 }
 
 fn request_summaries(em: &Emitted) -> BTreeMap<String, Sexp> {
